@@ -51,6 +51,7 @@ class SimFS:
         self.read_faults = {}  # path -> kind: one-shot error when the file is opened for reading
         self.read_faults_fired = 0
         self.read_delays = {}  # path -> seconds: one-shot slow read
+        self.op_delay = {}  # operation name -> seconds every such operation takes (only "fsync" so far)
         # fault machinery
         self.armed = False
         self.opno = 0
@@ -244,6 +245,13 @@ class SimFS:
         if fobj is None:
             raise OSError(errno.EBADF, "Bad file descriptor")
         post = self._point("fsync", fobj.path)
+        delay = self.op_delay.get("fsync")
+        if delay:
+            # a slow medium: the calling thread sits in fsync for a while (simulated clock); everything else goes on
+            from . import kernel as _kernel  # pylint: disable=import-outside-toplevel
+            if _kernel.CURRENT is not None:
+                _kernel.CURRENT.count("fault_slow_fsync")
+                _kernel.CURRENT.sleep(delay)
         fobj.inode.durable = fobj.inode.cache
         # ordered journal: everything before this point is committed with it
         self.durable_files = dict(self.files)
